@@ -532,6 +532,142 @@ func aesCase(s *cases.Set, k, b []byte, name string) {
 		Replay: map[string]interface{}{"api": "crypto/aes Encrypt", "key": hx(k), "block": hx(b), "observed": hx(o)}})
 }
 
+// wireValidate: what a receiver does with octets from the air: UnmarshalBinary, FCnt := full,
+// optionally DecodeFOptsToMACCommands, then Validate{Uplink,Downlink}DataMIC by its role.
+func wireValidate(b []byte, decodeFirst bool, v lorawan.MACVersion, up bool, conf uint32, dr, ch uint8, fk, sk lorawan.AES128Key, full uint32) (s string) {
+	cases.Begin("UnmarshalBinary + Validate*DataMIC:"+hx(b), nil)
+	defer cases.End()
+	defer func() {
+		if r := recover(); r != nil {
+			s = cq.Panic
+		}
+	}()
+	var q lorawan.PHYPayload
+	if err := q.UnmarshalBinary(append([]byte{}, b...)); err != nil {
+		return cq.Err
+	}
+	if m, ok := q.MACPayload.(*lorawan.MACPayload); ok {
+		m.FHDR.FCnt = full
+	}
+	if decodeFirst {
+		if err := q.DecodeFOptsToMACCommands(); err != nil {
+			return cq.Err
+		}
+	}
+	if up {
+		return obool(q.ValidateUplinkDataMIC(v, conf, dr, ch, fk, sk))
+	}
+	return obool(q.ValidateDownlinkDataMIC(v, conf, sk))
+}
+
+func wireCase(s *cases.Set, b []byte, decodeFirst bool, v lorawan.MACVersion, up bool, conf uint32, dr, ch uint8, fk, sk lorawan.AES128Key, full uint32, kind, what string) {
+	noise.Step(nr)
+	o := wireValidate(b, decodeFirst, v, up, conf, dr, ch, fk, sk, full)
+	key := fmt.Sprintf("%s:%s:up=%v:full=%d:conf=%d:dr=%d:ch=%d:fkey=%s:skey=%s:bytes=%s", what, ver(v), up, full, conf, dr, ch, hx(fk[:]), hx(sk[:]), hx(b))
+	rp := map[string]interface{}{"api": fmt.Sprintf("UnmarshalBinary, FCnt := full, %sValidate*DataMIC (role uplink=%v)", map[bool]string{true: "DecodeFOptsToMACCommands, ", false: ""}[decodeFirst], up),
+		"what": what, "macVersion": ver(v), "confFCnt": conf, "txDR": dr, "txCh": ch, "fNwkSIntKey": hx(fk[:]), "sNwkSIntKey": hx(sk[:]), "fullFCnt": full, "bytes": hx(b), "observed": o}
+	s.Add(cases.Case{Term: fmt.Sprintf("CWire %s %s %s %d %d %d %s %s %d %s %s", cq.Bool(decodeFirst), ver(v), cq.Bool(up), conf, dr, ch, cq.Bytes(fk[:]), cq.Bytes(sk[:]), full, cq.Bytes(b), o),
+		Key: key, Kind: kind, Nontrivial: true, Replay: rp})
+	bb := append([]byte{}, b...)
+	s.Remember(key, o, rp, func() string { return wireValidate(bb, decodeFirst, v, up, conf, dr, ch, fk, sk, full) })
+}
+
+// wireCases: validation of octets as received. The specification MIC covers the octets as transmitted; the library
+// recomputes it from the decoded value. Where the decoders drop RFU parts the two differ (known findings C02-1:
+// MHDR bits 4..2; C02-2: RFU bits of MAC commands once the FOpts have been decoded) - those inputs are generated
+// under the keys `wire:mhdr-rfu:` / `wire-decoded:fopts-rfu:`; every other position must behave.
+func wireCases(s *cases.Set, r *cq.RNG, i int) {
+	v := []lorawan.MACVersion{lorawan.LoRaWAN1_0, lorawan.LoRaWAN1_1}[i%2]
+	mts := []lorawan.MType{lorawan.UnconfirmedDataUp, lorawan.UnconfirmedDataDown, lorawan.ConfirmedDataUp, lorawan.ConfirmedDataDown}
+	mt := mts[(i/2)%4]
+	up := mt == lorawan.UnconfirmedDataUp || mt == lorawan.ConfirmedDataUp
+	conf, dr, ch, fk, sk := counter(r), r.Byte(), r.Byte(), key(r), key(r)
+	sign := func(p *lorawan.PHYPayload) bool {
+		if up {
+			return p.SetUplinkDataMIC(v, conf, dr, ch, fk, sk) == nil
+		}
+		return p.SetDownlinkDataMIC(v, conf, sk) == nil
+	}
+	specMIC := func(b []byte, ack bool, da lorawan.DevAddr, full uint32) (m [4]byte) {
+		return micforge.DataMIC(micforge.DataParams{Uplink: up, V11: v != lorawan.LoRaWAN1_0, ACK: ack, Conf: conf, TxDR: dr, TxCh: ch,
+			FKey: fk, SKey: sk, DevAddr: da, FCnt: full}, b[:len(b)-4])
+	}
+	// --- a frame with application payload and valid MAC commands in FOpts
+	p := dataFrame(r, framefmt.Opt{MType: mt, Port: 1 + r.Intn(200), FRMLen: r.Intn(24), FOptsBytes: r.Intn(8), FCntHigh: i%3 != 0})
+	m := p.MACPayload.(*lorawan.MACPayload)
+	full, ack, da := m.FHDR.FCnt, m.FHDR.FCtrl.ACK, m.FHDR.DevAddr
+	if !sign(&p) {
+		return
+	}
+	b, err := p.MarshalBinary()
+	if err != nil {
+		return
+	}
+	wireCase(s, b, false, v, up, conf, dr, ch, fk, sk, full, "wire", "wire:as-sent")
+	for _, bits := range []byte{0x04, 0x08, 0x10, 0x1c} {
+		c := append([]byte{}, b...)
+		c[0] |= bits
+		wireCase(s, c, false, v, up, conf, dr, ch, fk, sk, full, "wire-mhdr-rfu", fmt.Sprintf("wire:mhdr-rfu:bits=%02x:mic-of-the-frame-sent-with-rfu-zero", bits))
+		sm := specMIC(c, ack, da, full)
+		copy(c[len(c)-4:], sm[:])
+		wireCase(s, c, false, v, up, conf, dr, ch, fk, sk, full, "wire-mhdr-rfu", fmt.Sprintf("wire:mhdr-rfu:bits=%02x:specification-mic-of-the-received-octets", bits))
+	}
+	for k := 0; k < 3; k++ { // any other single-bit change must be rejected (MType / Major / every later octet)
+		c := append([]byte{}, b...)
+		pos := r.Intn(len(c) * 8)
+		if pos/8 == 0 && pos%8 >= 2 && pos%8 <= 4 {
+			pos = 8 + r.Intn((len(c)-1)*8)
+		}
+		c[pos/8] ^= 1 << uint(pos%8)
+		f2 := full&0xffff0000 | uint32(c[6]) | uint32(c[7])<<8
+		wireCase(s, c, false, v, up, conf, dr, ch, fk, sk, f2, "wire-bitflip", fmt.Sprintf("wire:bitflip:byte=%d:bit=%d", pos/8, pos%8))
+	}
+	{ // the specification MIC of octets with RFU zero is accepted (control for the construction above)
+		c := append([]byte{}, b...)
+		sm := specMIC(c, ack, da, full)
+		copy(c[len(c)-4:], sm[:])
+		wireCase(s, c, false, v, up, conf, dr, ch, fk, sk, full, "wire", "wire:specification-mic")
+	}
+	// --- LoRaWAN 1.0 (FOpts in clear): validation after DecodeFOptsToMACCommands
+	v = lorawan.LoRaWAN1_0
+	wireCase(s, func() []byte { q := p; sign(&q); x, _ := q.MarshalBinary(); return x }(), true, v, up, conf, dr, ch, fk, sk, full, "wire-decoded", "wire-decoded:as-sent")
+	var clean, rfu []byte // one command without / with RFU bits set
+	if up {
+		clean, rfu = []byte{0x03, byte(r.Intn(8))}, nil // LinkADRAns: bits 7..3 RFU
+		rfu = []byte{0x03, clean[1] | byte(1+r.Intn(31))<<3}
+	} else {
+		clean = []byte{0x08, byte(r.Intn(16))} // RXTimingSetupReq: bits 7..4 RFU
+		rfu = []byte{0x08, clean[1] | byte(1+r.Intn(15))<<4}
+	}
+	mk := func(fo []byte) []byte {
+		q := dataFrame(r, framefmt.Opt{MType: mt, Port: 1 + r.Intn(200), FRMLen: r.Intn(10), FCntHigh: i%3 != 0})
+		qm := q.MACPayload.(*lorawan.MACPayload)
+		qm.FHDR.DevAddr, qm.FHDR.FCnt, qm.FHDR.FCtrl = da, full, m.FHDR.FCtrl
+		qm.FHDR.FOpts = []lorawan.Payload{&lorawan.DataPayload{Bytes: fo}}
+		if !sign(&q) {
+			return nil
+		}
+		x, _ := q.MarshalBinary()
+		return x
+	}
+	if w := mk(clean); w != nil {
+		wireCase(s, w, true, v, up, conf, dr, ch, fk, sk, full, "wire-decoded", "wire-decoded:clean-command")
+		// the RFU bits set in flight: octet 9 is the command's payload octet (MHDR 1 + FHDR 7 + CID 1)
+		c := append([]byte{}, w...)
+		c[9] = rfu[1]
+		wireCase(s, c, false, v, up, conf, dr, ch, fk, sk, full, "wire", "wire:fopts-changed-in-flight:validated-before-decoding")
+		wireCase(s, c, true, v, up, conf, dr, ch, fk, sk, full, "wire-decoded-fopts-rfu", "wire-decoded:fopts-rfu:set-in-flight:mic-of-the-frame-sent-with-rfu-zero")
+		// a flipped MIC bit is still rejected after decoding
+		c2 := append([]byte{}, w...)
+		c2[len(c2)-1-r.Intn(4)] ^= 1 << uint(r.Intn(8))
+		wireCase(s, c2, true, v, up, conf, dr, ch, fk, sk, full, "wire-decoded", "wire-decoded:mic-bitflip")
+	}
+	if w := mk(rfu); w != nil { // sent with RFU bits set and signed over them
+		wireCase(s, w, false, v, up, conf, dr, ch, fk, sk, full, "wire", "wire:fopts-with-rfu-bits:validated-before-decoding")
+		wireCase(s, w, true, v, up, conf, dr, ch, fk, sk, full, "wire-decoded-fopts-rfu", "wire-decoded:fopts-rfu:sent-with-rfu-bits:specification-mic-of-the-received-octets")
+	}
+}
+
 // dataFrame / joinFrame: the framefmt generators with the MHDR Major field drawn from all four values (the library
 // accepts any; the MHDR octet enters every MIC)
 func dataFrame(r *cq.RNG, o framefmt.Opt) lorawan.PHYPayload {
@@ -588,7 +724,7 @@ func main() {
 	r := cq.NewRNG(seed)
 	nr = cq.NewRNG(seed ^ 0x9e3779b97f4a7c15)
 	s := cases.New("C02", dir, "LW.Corr.C02",
-		"RFC 4493 examples 1-4 and FIPS-197 C.1 first; then data frames (framefmt.DataFrame) whose MIC message length is cycled over 1..16 CMAC blocks (FRMPayload length chosen for it), FCnt with high bits in 70%, ConfFCnt with high bits in 70%, ACK alternating, both MAC versions, txDR/txCh cycled over all byte values, random/degenerate keys, carried MIC = valid / random / one bit flipped / first half changed / second half changed; validate also called with the other direction's function; MHDR Major drawn from 0..3; in a quarter of the frames the FRMPayload / FOpts elements are of a foreign Payload type (framefmt.Opaque, mixed [Opaque, DataPayload], a clocksync.Command on port 202); malformed: nil MACPayload, wrong payload type, unencodable frame (16-byte FOpts, MAC command on port > 0). Special MIC values: frames CONSTRUCTED (internal/micforge: CMAC inverted in its last block, which lies inside the FRMPayload; 1.1 uplink by a 2^16 search for the second half) so that their correct MIC is 00000000, ffffffff, 00000001, the MIC of the previous case, 0000xxxx, xxxx0000 - for uplink/downlink x 1.0/1.1; Set must give that MIC and Validate of the frame carrying it must be true. History: unrelated library calls (internal/noise) before every compared call; neighbour families run back to back (a base call whose frame carries its valid MIC, then the same call with exactly one input changed - single FCnt bits 16, 31, one more high and one low bit, FCnt + 2^16, ConfFCnt + 1 / + 2^16, txDR, txCh, each key zeroed, keys equal, keys swapped, other version, each key replaced by a DIFFERENT key that agrees with it under CRC-32 x3 / Adler-32 / byte sum / xor-folds / first 15 / first 8 / last 8 bytes (internal/collide) - the frame still carrying the base MIC, then the base call again), and MICs that are correct under a RELATED formula of the library (other version, downlink formula with either key, 1.0 / MICF form, keys swapped, neighbouring ConfFCnt/txDR/txCh, halves swapped, cmacF half twice), and a verdict family on ONE frame object (wrong keys, the same wrong keys again, the right keys; MIC never re-assigned), each an ordinary case compared with model and specification; after every Validate* call the frame must print and marshal as before (validate-changes-frame:); every compared call is repeated from 8 goroutines at once (ReplayConcurrently) and three times later in the process (reverse, same, shuffled order) and must give its first result. Cases are distinct by construction (random keys) except the repeated base calls.")
+		"RFC 4493 examples 1-4 and FIPS-197 C.1 first; then data frames (framefmt.DataFrame) whose MIC message length is cycled over 1..16 CMAC blocks (FRMPayload length chosen for it), FCnt with high bits in 70%, ConfFCnt with high bits in 70%, ACK alternating, both MAC versions, txDR/txCh cycled over all byte values, random/degenerate keys, carried MIC = valid / random / one bit flipped / first half changed / second half changed; validate also called with the other direction's function; MHDR Major drawn from 0..3; in a quarter of the frames the FRMPayload / FOpts elements are of a foreign Payload type (framefmt.Opaque, mixed [Opaque, DataPayload], a clocksync.Command on port 202); malformed: nil MACPayload, wrong payload type, unencodable frame (16-byte FOpts, MAC command on port > 0). Octets as received (CWire): frames serialised, then changed on the wire and run through UnmarshalBinary + Validate* (optionally after DecodeFOptsToMACCommands for 1.0): as sent, MHDR RFU bits 04/08/10/1c set with the old MIC and with the specification MIC over the received octets (known C02-1), three other single-bit flips, a MAC command's RFU bits set in flight or signed by the sender and validated before / after decoding (known C02-2), MIC bit flips after decoding; the verdict is compared with the specification MIC computed in Coq from the raw octets. FOpts of 256..515 octets (C02-3). Special MIC values: frames CONSTRUCTED (internal/micforge: CMAC inverted in its last block, which lies inside the FRMPayload; 1.1 uplink by a 2^16 search for the second half) so that their correct MIC is 00000000, ffffffff, 00000001, the MIC of the previous case, 0000xxxx, xxxx0000 - for uplink/downlink x 1.0/1.1; Set must give that MIC and Validate of the frame carrying it must be true. History: unrelated library calls (internal/noise) before every compared call; neighbour families run back to back (a base call whose frame carries its valid MIC, then the same call with exactly one input changed - single FCnt bits 16, 31, one more high and one low bit, FCnt + 2^16, ConfFCnt + 1 / + 2^16, txDR, txCh, each key zeroed, keys equal, keys swapped, other version, each key replaced by a DIFFERENT key that agrees with it under CRC-32 x3 / Adler-32 / byte sum / xor-folds / first 15 / first 8 / last 8 bytes (internal/collide) - the frame still carrying the base MIC, then the base call again), and MICs that are correct under a RELATED formula of the library (other version, downlink formula with either key, 1.0 / MICF form, keys swapped, neighbouring ConfFCnt/txDR/txCh, halves swapped, cmacF half twice), and a verdict family on ONE frame object (wrong keys, the same wrong keys again, the right keys; MIC never re-assigned), each an ordinary case compared with model and specification; after every Validate* call the frame must print and marshal as before (validate-changes-frame:); every compared call is repeated from 8 goroutines at once (ReplayConcurrently) and three times later in the process (reverse, same, shuffled order) and must give its first result. Cases are distinct by construction (random keys) except the repeated base calls.")
 	s.ShardSize = 60
 	n := 600
 	if thorough {
@@ -623,6 +759,26 @@ func main() {
 			rounds = 25
 		}
 		forgedCases(s, r, rounds)
+	}
+	{
+		nw := 16
+		if thorough {
+			nw = 400
+		}
+		for i := 0; i < nw; i++ {
+			wireCases(s, r, i)
+		}
+	}
+	// FOpts of 256..271 octets: FOptsLen does not fit its 4 bits (defect C02-3, fixed: refused like 16..255)
+	for _, n := range []int{256, 257, 260, 271, 272, 512, 515} {
+		q := dataFrame(r, framefmt.Opt{MType: lorawan.UnconfirmedDataDown, Port: -1})
+		q.MACPayload.(*lorawan.MACPayload).FHDR.FOpts = []lorawan.Payload{&lorawan.DataPayload{Bytes: r.Bytes(n)}}
+		if n%2 == 0 {
+			downCase(s, r, q, lorawan.LoRaWAN1_0, counter(r), key(r), 0, "fopts-too-long")
+		} else {
+			q.MHDR.MType = lorawan.UnconfirmedDataUp
+			upCase(s, r, q, lorawan.LoRaWAN1_1, counter(r), r.Byte(), r.Byte(), key(r), key(r), 0, "fopts-too-long")
+		}
 	}
 	vers := []lorawan.MACVersion{lorawan.LoRaWAN1_0, lorawan.LoRaWAN1_1}
 	for i := 0; i < n; i++ {
